@@ -32,7 +32,7 @@ ASSUMPTIONS = ["means: running mean vs arithmetic mean agree to 8*eps*k*max|r|; 
                "Model is driven through its public methods exactly as controller.py does (steps relative to xbase, "
                "evaluation numbers supplied by the caller)"]
 
-vals = st.sampled_from([-3.0, -2.0, -1.0, 0.0, 0.0, 1.0, 1.0, 2.0, 3.0, 0.5, 1e-3, 1e3])
+vals = st.sampled_from([-3.0, -2.0, -1.0, 0.0, 0.0, 1.0, 1.0, 2.0, 3.0, 0.5, 1e-3, 1e3, -3.0, -2.0, -1.0, 0.0, 1.0, 2.0, 3.0, 0.5, -1e3, 1e6, -1e6])      # large values of both signs: samples that cancel
 special = st.sampled_from([float("nan"), float("nan"), float("inf"), float("-inf")])
 
 
@@ -49,7 +49,7 @@ def cases(draw):
     n = draw(st.integers(1, 3))
     m = draw(st.integers(1, 3))
     npt = draw(st.integers(n + 1, 2 * n + 1))
-    lam = draw(st.sampled_from([None, None, 0.5, 2.0]))
+    lam = draw(st.sampled_from([None, None, None, 0.5, 2.0, 0.3, 0.7]))      # non-dyadic weights: h is not exactly representable next to large sums
     x0 = [draw(st.integers(-20, 20)) / 4.0 for _ in range(n)]
     ops = []
     nops = draw(st.integers(1, 50))
@@ -155,8 +155,11 @@ def _run(case):
                 res.fail("C17.eval_num", "step %d %s: slot %d carries evaluation number %d, expected %d" % (step, op, k, mdl.eval_num[k], s["en"]))
                 return False
             want = objective(lam, s["x"], rm)
-            # the stored mean is known to 8*eps*ns*rmax per component, so its square sum to ~2*|r|*that
-            tol = 16 * EPS * ns * ((abs(want) if math.isfinite(want) else 1.0) + m * rmax * rmax) + (lam or 0.0) * n * tolx + 1e-300
+            # the stored mean is known to dlt = 8*eps*ns*rmax per component, so its square sum to m*dlt*(2*max|mean| + dlt) - NOT to
+            # eps*rmax^2: when large samples cancel (mean << rmax) the stored objective is still sum(mean^2)+h to that accuracy
+            dlt = 8 * EPS * ns * max(rmax, 1e-300)
+            rmm = float(np.max(np.abs(rm[np.isfinite(rm)]))) if np.any(np.isfinite(rm)) else 0.0
+            tol = 16 * EPS * ns * (abs(want) if math.isfinite(want) else 1.0) + m * dlt * (2 * rmm + dlt) + (lam or 0.0) * n * tolx + 1e-300
             if not same(mdl.objval[k], want, tol):
                 res.fail("C17.objval", "step %d %s: slot %d objective %r, expected sum(mean^2)+h = %r" % (step, op, k, mdl.objval[k], want))
                 return False
